@@ -277,4 +277,23 @@ theorem root_final_adjust (k R s : Nat) (hk : 0 < k) (h1 : iroot k R ≤ s) :
 example : finalAdjust 3 1000 11 = (10, 0) ∧ finalAdjust1 5 (3 ^ 5 - 1) 3 = (2, 3 ^ 5 - 1 - 2 ^ 5) := by
   decide +kernel
 
+/-- PARTIAL (soundness half of `perfect_power_p_iff`).  Full statement:
+      `mpzPerfectPowerP u = true ↔ ∃ a b, 2 ≤ b ∧ a ^ b = u`   (the manual's definition; 0, 1 and −1 are
+      perfect powers, negative numbers only with odd `b`).
+    Proved: whenever the model of mpz/perfpow.c answers "yes" — `u = 0`, the early `n2prime` exits, the
+    "factoring completed" exit with its power-of-two test for negative numbers, and both root-attempt loops —
+    `u` is a perfect power in exactly that sense (the exponent is odd when `u < 0`).  The hypothesis is the
+    contract of mpn_rootrem, which supplies mpz_root's exactness flags.
+    Missing: the completeness half ("no" is only answered for non-powers), which needs unique
+    factorisation (the gcd-of-multiplicities argument and the `SMALLEST_OMITTED_PRIME` cut-off); it is
+    covered by the differential run against the exhaustive-exponent specification `isPerfectPower`. -/
+theorem perfect_power_p_iff_partial (hrr : RootremSpec) (u : Int) (h : mpzPerfectPowerP u = true) :
+    ∃ (a : Int) (b : Nat), 2 ≤ b ∧ a ^ b = u := perfect_power_sound hrr u h
+
+-- non-vacuity: the model says yes on 0, 1, −1, −27·64, 2^10·3^15 and no on 2, −16, −4·81
+example : mpzPerfectPowerP 0 = true ∧ mpzPerfectPowerP 1 = true ∧ mpzPerfectPowerP (-1) = true ∧
+    mpzPerfectPowerP (-1728) = true ∧ mpzPerfectPowerP (2 ^ 10 * 3 ^ 15) = true ∧
+    mpzPerfectPowerP 2 = false ∧ mpzPerfectPowerP (-16) = false ∧ mpzPerfectPowerP (-324) = false := by
+  decide +kernel
+
 end Mpir.Root
